@@ -1,5 +1,7 @@
 (* Proofs about the source lifecycle model (Ext/SourceLife.v): Source.start / stop / run, from_periodic,
-   from_iterable.  All theorems quantify over ALL histories `acts : list sact` of start / stop / ack / advance. *)
+   from_iterable.  All theorems quantify over ALL histories `acts : list sact` of start / stop / ack / advance /
+   back-to-back calls inside one loop callback (SMulti), and over the consumer's reaction `on : option Z`
+   (Some v = the consumer calls stop() from inside its callback when it is handed v). *)
 From Coq Require Import List ZArith Bool Lia Arith.
 From SZ Require Import Ext.SourceLife.
 Import ListNotations.
@@ -9,13 +11,13 @@ Import ListNotations.
 (* ---------------------------------------------------------------------------------------------------- *)
 
 Definition same_cfg (s s' : sst) : Prop :=
-  ss_fixed s' = ss_fixed s /\ ss_kind s' = ss_kind s /\ ss_sync s' = ss_sync s.
+  ss_fixed s' = ss_fixed s /\ ss_kind s' = ss_kind s /\ ss_sync s' = ss_sync s /\ ss_stop_on s' = ss_stop_on s.
 
 Lemma same_cfg_refl s : same_cfg s s.
 Proof. repeat split. Qed.
 
 Lemma same_cfg_trans s1 s2 s3 : same_cfg s1 s2 -> same_cfg s2 s3 -> same_cfg s1 s3.
-Proof. unfold same_cfg; intros (A & B & C) (D & E & F); repeat split; congruence. Qed.
+Proof. unfold same_cfg; intros (A & B & C & C') (D & E & F & F'); repeat split; congruence. Qed.
 
 Lemma same_cfg_upd s n st l c : same_cfg s (upd s n st l c).
 Proof. repeat split. Qed.
@@ -51,6 +53,81 @@ Proof.
   - destruct (ack_first s (ss_loops s) (ss_stopped s) (ss_count s)) as [[[lo dl] st] c].
     inversion H; subst. apply same_cfg_upd.
   - eapply s_adv_cfg; eauto.
+  - unfold s_multi in H.
+    destruct (multi_flags (ss_fixed s) calls (ss_stopped s) (negb (no_loops s)) 0) as [st n].
+    destruct (spawn_go n s (ss_now s) st (ss_count s)) as [[[ls dl] st'] c].
+    inversion H; subst. apply same_cfg_upd.
+Qed.
+
+Lemma hit_cfg s s' x : same_cfg s s' -> hit s' x = hit s x.
+Proof. intros (_ & _ & _ & A). unfold hit. rewrite A. reflexivity. Qed.
+
+(* ---------------------------------------------------------------------------------------------------- *)
+(* 0b. Back-to-back calls: the flags                                                                     *)
+(* ---------------------------------------------------------------------------------------------------- *)
+
+Definition flag_of (c : lcall) : bool := match c with CStart => false | CStop => true end.
+
+(* the last call decides the flag *)
+Lemma multi_flags_last fx : forall calls st r sp st' n,
+  multi_flags fx calls st r sp = (st', n) ->
+  st' = match calls with [] => st | _ :: _ => flag_of (last calls CStop) end.
+Proof.
+  induction calls as [|c t IH]; intros st r sp st' n H; cbn [multi_flags] in H.
+  - inversion H; reflexivity.
+  - assert (E : st' = match t with [] => flag_of c | _ :: _ => flag_of (last t CStop) end).
+    { destruct c.
+      - destruct st.
+        + destruct (fx && r); apply IH in H; rewrite H; destruct t; reflexivity.
+        + apply IH in H; rewrite H; destruct t; reflexivity.
+      - apply IH in H; rewrite H; destruct t; reflexivity. }
+    rewrite E. destruct t; reflexivity.
+Qed.
+
+Lemma multi_flags_mono fx : forall calls st r sp st' n,
+  multi_flags fx calls st r sp = (st', n) -> sp <= n.
+Proof.
+  induction calls as [|c t IH]; intros st r sp st' n H; cbn [multi_flags] in H.
+  - inversion H; lia.
+  - destruct c.
+    + destruct st; [destruct (fx && r) |]; apply IH in H; lia.
+    + apply IH in H; lia.
+Qed.
+
+(* the repaired code schedules at most one run(), and none while a polling loop is alive *)
+Lemma multi_flags_fixed : forall calls st r sp st' n,
+  multi_flags true calls st r sp = (st', n) -> (r = true -> n = sp) /\ n <= S sp.
+Proof.
+  induction calls as [|c t IH]; intros st r sp st' n H; cbn [multi_flags] in H.
+  - inversion H; subst. split; [reflexivity | lia].
+  - destruct c.
+    + destruct st.
+      * destruct r; cbn [andb] in H.
+        -- apply IH in H. exact H.
+        -- apply IH in H. destruct H as (A & _). split; [discriminate |]. rewrite A by reflexivity. lia.
+      * apply IH in H. exact H.
+    + apply IH in H. exact H.
+Qed.
+
+(* on a stopped source without a live loop: no run() scheduled means that no start() was called *)
+Lemma multi_flags_nospawn fx : forall calls sp st' n,
+  multi_flags fx calls true false sp = (st', n) -> n = sp -> st' = true.
+Proof.
+  induction calls as [|c t IH]; intros sp st' n H E; cbn [multi_flags] in H.
+  - inversion H; reflexivity.
+  - destruct c.
+    + rewrite andb_false_r in H. apply multi_flags_mono in H. lia.
+    + eapply IH; eauto.
+Qed.
+
+Lemma quiet_spec a : quiet a = true <->
+  a <> SStart /\ (forall calls, a = SMulti calls -> last calls CStop = CStop).
+Proof.
+  split.
+  - intros H. split; [intros ->; discriminate |]. intros calls ->. cbn [quiet] in H.
+    destruct (last calls CStop); [discriminate | reflexivity].
+  - intros (A & B). destruct a; try reflexivity; [congruence |].
+    cbn [quiet]. rewrite (B calls eq_refl). reflexivity.
 Qed.
 
 Lemma s_run_cfg acts : forall s s' outs, s_run s acts = (s', outs) -> same_cfg s s'.
@@ -126,6 +203,16 @@ Proof.
     inversion H; subst. apply s_tick_len in E1. apply IH in E2. lia.
 Qed.
 
+Lemma spawn_go_len s now : forall n st c ls dl st' c',
+  spawn_go n s now st c = (ls, dl, st', c') -> length ls <= n.
+Proof.
+  induction n as [|n IH]; intros st c ls dl st' c' H; cbn [spawn_go] in H.
+  - inversion H; subst; simpl; lia.
+  - destruct (loop_go (fuel_of s) s now st c 0) as [[[l1 dl1] st1] c1].
+    destruct (spawn_go n s now _ c1) as [[[ls2 dl2] st2] c2] eqn:E2.
+    inversion H; subst. apply IH in E2. rewrite app_length. pose proof (opt_len l1). lia.
+Qed.
+
 (* in the repaired variant start() spawns a loop only when none is alive *)
 Lemma s_step_len s a s' d :
   ss_fixed s = true -> s_step s a = (s', d) -> length (ss_loops s) <= 1 -> length (ss_loops s') <= 1.
@@ -141,6 +228,13 @@ Proof.
   - destruct (ack_first s (ss_loops s) (ss_stopped s) (ss_count s)) as [[[lo dl] st] c] eqn:E.
     inversion H; subst. cbn [upd ss_loops]. apply ack_first_len in E. lia.
   - apply s_adv_len in H. lia.
+  - unfold s_multi in H. rewrite Hf in H.
+    destruct (multi_flags true calls (ss_stopped s) (negb (no_loops s)) 0) as [st n] eqn:EF.
+    destruct (spawn_go n s (ss_now s) st (ss_count s)) as [[[ls dl] st'] c] eqn:ES.
+    inversion H; subst. cbn [upd ss_loops]. rewrite app_length.
+    apply multi_flags_fixed in EF. destruct EF as (A & B). apply spawn_go_len in ES.
+    unfold no_loops in A. destruct (ss_loops s) as [|l0 r0]; cbn [negb length] in *; [lia |].
+    rewrite A in ES by reflexivity. lia.
 Qed.
 
 Lemma s_run_len acts : forall s s' outs,
@@ -154,27 +248,35 @@ Proof.
     + eapply s_step_len; eauto.
 Qed.
 
-Theorem one_loop : forall k sync acts s outs,
-  s_run (s_init true k sync) acts = (s, outs) -> length (ss_loops s) <= 1.
-Proof. intros k sync acts s outs H. eapply s_run_len; [| exact H |]; simpl; auto. Qed.
+Theorem one_loop : forall k sync on acts s outs,
+  s_run (s_init true k sync on) acts = (s, outs) -> length (ss_loops s) <= 1.
+Proof. intros k sync on acts s outs H. eapply s_run_len; [| exact H |]; simpl; auto. Qed.
 
 (* 2. the code as found: start, stop, start leaves two polling loops alive *)
-Theorem one_loop_refuted : exists k sync acts s outs,
-  s_run (s_init false k sync) acts = (s, outs) /\ length (ss_loops s) = 2.
+Theorem one_loop_refuted : exists k sync on acts s outs,
+  s_run (s_init false k sync on) acts = (s, outs) /\ length (ss_loops s) = 2.
 Proof.
-  exists (SPeriodic 5), true, [SStart; SStop; SStart].
+  exists (SPeriodic 5), true, None, [SStart; SStop; SStart].
+  eexists; eexists; split; [vm_compute; reflexivity | reflexivity].
+Qed.
+
+(* the same with the three calls back to back inside one loop callback *)
+Theorem one_loop_refuted_back_to_back : exists k sync on s outs,
+  s_run (s_init false k sync on) [SMulti [CStart; CStop; CStart]] = (s, outs) /\ length (ss_loops s) = 2.
+Proof.
+  exists (SPeriodic 5), true, None.
   eexists; eexists; split; [vm_compute; reflexivity | reflexivity].
 Qed.
 
 (* reachable states of the repaired variant *)
 Definition reachable (s : sst) : Prop :=
-  exists k sync acts outs, s_run (s_init true k sync) acts = (s, outs).
+  exists k sync on acts outs, s_run (s_init true k sync on) acts = (s, outs).
 
 Lemma reachable_fixed s : reachable s -> ss_fixed s = true.
-Proof. intros (k & sync & acts & outs & H). apply s_run_cfg in H. destruct H as (A & _). exact A. Qed.
+Proof. intros (k & sync & on & acts & outs & H). apply s_run_cfg in H. destruct H as (A & _). exact A. Qed.
 
 Lemma reachable_one_loop s : reachable s -> length (ss_loops s) <= 1.
-Proof. intros (k & sync & acts & outs & H). eapply one_loop; eauto. Qed.
+Proof. intros (k & sync & on & acts & outs & H). eapply one_loop; eauto. Qed.
 
 (* ---------------------------------------------------------------------------------------------------- *)
 (* 3. After stop() no new cycle begins until the next start()                                           *)
@@ -210,6 +312,39 @@ Proof.
       * rewrite Hf, loop_go_stopped. destruct (ss_fixed s); eexists; reflexivity.
 Qed.
 
+Lemma spawn_go_stopped s now : forall n c, spawn_go n s now true c = ([], [], true, c).
+Proof.
+  destruct (fuel_of_S s) as (f & Hf).
+  induction n as [|n IH]; intros c; cbn [spawn_go]; [reflexivity |].
+  rewrite Hf, loop_go_stopped. cbv beta iota.
+  replace (if ss_fixed s then true else match ss_kind s with SPeriodic _ => true | SIterable _ => true end)
+    with true by (destruct (ss_fixed s), (ss_kind s); reflexivity).
+  rewrite IH. reflexivity.
+Qed.
+
+(* back-to-back calls whose last call is stop(): nothing is delivered, no loop appears, the source is stopped;
+   in ANY state (in particular on a stopped source with no live loop), both variants *)
+Theorem back_to_back_stop_last_is_silent : forall s pre,
+  s_step s (SMulti (pre ++ [CStop])) = (upd s (ss_now s) true (ss_loops s) (ss_count s), []).
+Proof.
+  intros s pre. cbn [s_step]. unfold s_multi.
+  destruct (multi_flags (ss_fixed s) (pre ++ [CStop]) (ss_stopped s) (negb (no_loops s)) 0) as [st n] eqn:EF.
+  apply multi_flags_last in EF. rewrite last_last in EF.
+  assert (E : st = true) by (rewrite EF; destruct pre; reflexivity). clear EF. subst st.
+  rewrite spawn_go_stopped, app_nil_r. reflexivity.
+Qed.
+
+(* an action that cannot leave a stopped source started (quiet) on a stopped source: the flags *)
+Lemma s_multi_stopped s calls : ss_stopped s = true -> last calls CStop = CStop ->
+  s_multi s calls = (upd s (ss_now s) true (ss_loops s) (ss_count s), []).
+Proof.
+  intros Hst Hl. unfold s_multi.
+  destruct (multi_flags (ss_fixed s) calls (ss_stopped s) (negb (no_loops s)) 0) as [st n] eqn:EF.
+  apply multi_flags_last in EF. rewrite Hl, Hst in EF.
+  assert (E : st = true) by (rewrite EF; destruct calls; reflexivity). clear EF. subst st.
+  rewrite spawn_go_stopped, app_nil_r. reflexivity.
+Qed.
+
 Lemma s_tick_stopped s : ss_stopped s = true -> exists s', s_tick s = (s', []) /\ ss_stopped s' = true.
 Proof.
   intros H. unfold s_tick. rewrite H.
@@ -227,19 +362,45 @@ Qed.
 
 (* general form: any state, either variant *)
 Lemma no_new_cycle_after_stop_any : forall s, ss_stopped s = true ->
-  forall a, a <> SStart -> snd (s_step s a) = [] /\ ss_stopped (fst (s_step s a)) = true.
+  forall a, quiet a = true -> snd (s_step s a) = [] /\ ss_stopped (fst (s_step s a)) = true.
 Proof.
   intros s H a Ha. destruct a; cbn [s_step].
-  - congruence.
+  - discriminate.
   - rewrite H. split; [reflexivity | exact H].
   - rewrite H. destruct (ack_first_stopped s (ss_loops s) (ss_count s)) as (lo & E). rewrite E.
     split; reflexivity.
   - destruct (s_adv_stopped (Z.to_nat dt) s H) as (s' & E & H'). rewrite E. split; [reflexivity | exact H'].
+  - cbn [quiet] in Ha. rewrite s_multi_stopped; [split; reflexivity | exact H |].
+    destruct (last calls CStop); [discriminate | reflexivity].
 Qed.
 
 Theorem no_new_cycle_after_stop : forall s, reachable s -> ss_stopped s = true ->
-  forall a, a <> SStart -> snd (s_step s a) = [].
+  forall a, quiet a = true -> snd (s_step s a) = [].
 Proof. intros s _ H a Ha. apply no_new_cycle_after_stop_any; assumption. Qed.
+
+(* the statement with the old side condition `a <> SStart` does not extend to back-to-back calls:
+   a callback that ends with start() does start the source *)
+Theorem no_new_cycle_after_stop_literal_refuted : exists s a,
+  reachable s /\ ss_stopped s = true /\ a <> SStart /\ snd (s_step s a) <> [].
+Proof.
+  exists (s_init true (SPeriodic 5) true None), (SMulti [CStop; CStart]).
+  split; [exists (SPeriodic 5), true, None, [], []; reflexivity |].
+  split; [reflexivity |]. split; [discriminate |]. vm_compute. discriminate.
+Qed.
+
+(* a whole continuation without a (possible) start delivers nothing and leaves the source stopped *)
+Lemma quiet_run_stopped acts : forall s s' outs, ss_stopped s = true ->
+  Forall (fun a => quiet a = true) acts -> s_run s acts = (s', outs) ->
+  concat outs = [] /\ ss_stopped s' = true.
+Proof.
+  induction acts as [|a t IH]; intros s s' outs Hst Hq H; cbn [s_run] in H.
+  - inversion H; subst. split; [reflexivity | exact Hst].
+  - inversion Hq as [|? ? Qa Qt]; subst.
+    destruct (no_new_cycle_after_stop_any s Hst a Qa) as (D & S1).
+    destruct (s_step s a) as [s1 o] eqn:E1. destruct (s_run s1 t) as [s2 os] eqn:E2.
+    inversion H; subst. cbn [fst snd] in *. subst o.
+    destruct (IH _ _ _ S1 Qt E2) as (A & B). cbn [concat app]. split; assumption.
+Qed.
 
 (* ---------------------------------------------------------------------------------------------------- *)
 (* Generic accumulation: if every burst of one loop (loop_go) extends the delivered-values list `F count` *)
@@ -297,6 +458,16 @@ Section Accum.
           inversion H; subst. eapply go_good; eauto.
   Qed.
 
+  Lemma spawn_go_good s (Hs : C s) now : forall n st c ls dl st' c',
+    spawn_go n s now st c = (ls, dl, st', c') -> Good c dl c'.
+  Proof.
+    induction n as [|n IH]; intros st c ls dl st' c' H; cbn [spawn_go] in H.
+    - inversion H; subst. apply Good_refl.
+    - destruct (loop_go (fuel_of s) s now st c 0) as [[[l1 dl1] st1] c1] eqn:E1.
+      destruct (spawn_go n s now _ c1) as [[[ls2 dl2] st2] c2] eqn:E2.
+      inversion H; subst. eapply Good_trans; [eapply go_good; eauto | eapply IH; eauto].
+  Qed.
+
   Lemma s_tick_good s s' d : C s -> s_tick s = (s', d) -> Good (ss_count s) d (ss_count s').
   Proof.
     intros Hs. unfold s_tick.
@@ -326,6 +497,10 @@ Section Accum.
     - destruct (ack_first s (ss_loops s) (ss_stopped s) (ss_count s)) as [[[lo dl] st] c] eqn:E.
       inversion H; subst. cbn [upd ss_count]. eapply ack_first_good; eauto.
     - eapply s_adv_good; eauto.
+    - unfold s_multi in H.
+      destruct (multi_flags (ss_fixed s) calls (ss_stopped s) (negb (no_loops s)) 0) as [st n].
+      destruct (spawn_go n s (ss_now s) st (ss_count s)) as [[[ls dl] st'] c] eqn:E.
+      inversion H; subst. cbn [upd ss_count]. eapply spawn_go_good; eauto.
   Qed.
 
   Lemma s_run_good acts : forall s s' outs,
@@ -378,18 +553,18 @@ Proof.
       assert (G1 : Good (fun c => c <= length items) (fun c => firstn c items) c [(now, x)] (S c)).
       { intros _. split; [exact EL |]. cbn [map snd]. symmetry; exact EF. }
       destruct (ss_sync s).
-      * destruct (loop_go fuel s now false (S c) (S cur)) as [[[l1 dl1] st1] c1] eqn:E1.
+      * destruct (loop_go fuel s now (hit s x) (S c) (S cur)) as [[[l1 dl1] st1] c1] eqn:E1.
         inversion H; subst. apply IH in E1.
         change ((now, x) :: dl1) with ([(now, x)] ++ dl1). eapply Good_trans; eauto.
       * inversion H; subst. exact G1.
     + inversion H; subst. apply Good_refl.
 Qed.
 
-Theorem from_iterable_exact : forall items sync acts s outs,
-  s_run (s_init true (SIterable items) sync) acts = (s, outs) ->
+Theorem from_iterable_exact : forall items sync on acts s outs,
+  s_run (s_init true (SIterable items) sync on) acts = (s, outs) ->
   map snd (concat outs) = firstn (ss_count s) items /\ ss_count s <= length items.
 Proof.
-  intros items sync acts s outs H.
+  intros items sync on acts s outs H.
   eapply (s_run_good (iter_cfg items) (fun c => c <= length items) (fun c => firstn c items)) in H.
   - cbn [s_init ss_count] in H. destruct H as (L & E); [lia |]. cbn [firstn app] in E. split; assumption.
   - apply iter_cfg_stable.
@@ -433,11 +608,11 @@ Proof.
 Qed.
 
 (* holds for both variants *)
-Theorem periodic_values_any : forall fx poll sync acts s outs,
-  s_run (s_init fx (SPeriodic poll) sync) acts = (s, outs) ->
+Theorem periodic_values_any : forall fx poll sync on acts s outs,
+  s_run (s_init fx (SPeriodic poll) sync on) acts = (s, outs) ->
   map snd (concat outs) = map Z.of_nat (seq 1 (ss_count s)).
 Proof.
-  intros fx poll sync acts s outs H.
+  intros fx poll sync on acts s outs H.
   eapply (s_run_good (per_cfg poll) (fun _ => True) (fun c => map Z.of_nat (seq 1 c))) in H.
   - destruct H as (_ & E); [exact I |]. exact E.
   - apply per_cfg_stable.
@@ -445,8 +620,8 @@ Proof.
   - reflexivity.
 Qed.
 
-Theorem periodic_values : forall poll sync acts s outs,
-  s_run (s_init true (SPeriodic poll) sync) acts = (s, outs) ->
+Theorem periodic_values : forall poll sync on acts s outs,
+  s_run (s_init true (SPeriodic poll) sync on) acts = (s, outs) ->
   map snd (concat outs) = map Z.of_nat (seq 1 (ss_count s)).
 Proof. intros; eapply periodic_values_any; eauto. Qed.
 
@@ -457,7 +632,7 @@ Proof. intros; eapply periodic_values_any; eauto. Qed.
 Definition all_emit (loops : list linst) : Prop := Forall (fun l => li_mode l = LEmit) loops.
 
 Definition bp_inv (items : list Z) (s : sst) : Prop :=
-  ss_kind s = SIterable items /\ ss_sync s = false /\ all_emit (ss_loops s).
+  ss_fixed s = true /\ ss_kind s = SIterable items /\ ss_sync s = false /\ all_emit (ss_loops s).
 
 Lemma loop_go_bp items s : ss_kind s = SIterable items -> ss_sync s = false ->
   forall fuel now st c cur l dl st' c', loop_go fuel s now st c cur = (l, dl, st', c') ->
@@ -482,7 +657,7 @@ Qed.
 
 Lemma s_tick_bp items s : bp_inv items s -> exists s', s_tick s = (s', []) /\ bp_inv items s'.
 Proof.
-  intros (Hk & Hs & Ha). unfold s_tick. rewrite (resume_due_all_emit s _ _ _ _ Ha).
+  intros (Hfx & Hk & Hs & Ha). unfold s_tick. rewrite (resume_due_all_emit s _ _ _ _ Ha).
   eexists; split; [reflexivity |]. repeat split; assumption.
 Qed.
 
@@ -496,7 +671,7 @@ Qed.
 
 Lemma s_step_bp items s a s' d : bp_inv items s -> s_step s a = (s', d) -> length d <= 1 /\ bp_inv items s'.
 Proof.
-  intros (Hk & Hs & Ha) H. destruct a; cbn [s_step] in H.
+  intros (Hfx & Hk & Hs & Ha) H. destruct a; cbn [s_step] in H.
   - destruct (ss_stopped s).
     + destruct (ss_fixed s && negb match ss_loops s with [] => true | _ :: _ => false end).
       * inversion H; subst. split; [simpl; lia | repeat split; assumption].
@@ -516,6 +691,18 @@ Proof.
       apply Forall_app; split; assumption.
   - destruct (s_adv_bp items (Z.to_nat dt) s) as (s2 & E2 & H2); [repeat split; assumption |].
     rewrite E2 in H. inversion H; subst. split; [simpl; lia | exact H2].
+  - unfold s_multi in H. rewrite Hfx in H.
+    destruct (multi_flags true calls (ss_stopped s) (negb (no_loops s)) 0) as [st n] eqn:EF.
+    destruct (spawn_go n s (ss_now s) st (ss_count s)) as [[[ls dl] st'] c] eqn:ES.
+    apply multi_flags_fixed in EF. destruct EF as (_ & Hn).
+    assert (G : length dl <= 1 /\ all_emit ls).
+    { destruct n as [|[|n]]; [| | lia]; cbn [spawn_go] in ES.
+      - inversion ES; subst. split; [simpl; lia | constructor].
+      - destruct (loop_go (fuel_of s) s (ss_now s) st (ss_count s) 0) as [[[l1 dl1] st1] c1] eqn:E1.
+        inversion ES; subst. destruct (loop_go_bp items s Hk Hs _ _ _ _ _ _ _ _ _ E1) as (L & A).
+        rewrite !app_nil_r. split; assumption. }
+    destruct G as (L & A). inversion H; subst. split; [exact L |]. repeat split; try assumption.
+    cbn [upd ss_loops]. apply Forall_app; split; assumption.
 Qed.
 
 Lemma s_run_bp items acts : forall s s' outs, bp_inv items s -> s_run s acts = (s', outs) ->
@@ -528,28 +715,28 @@ Proof.
     destruct (IH _ _ _ H1 E2) as (F2 & H2). split; [constructor; assumption | exact H2].
 Qed.
 
-Lemma bp_inv_init fx items : bp_inv items (s_init fx (SIterable items) false).
-Proof. split; [reflexivity |]. split; [reflexivity | constructor]. Qed.
+Lemma bp_inv_init items on : bp_inv items (s_init true (SIterable items) false on).
+Proof. repeat split. constructor. Qed.
 
 (* every live loop is awaiting its consumer, there is at most one, and no step delivers more than one item *)
-Theorem from_iterable_backpressure : forall items acts s outs,
-  s_run (s_init true (SIterable items) false) acts = (s, outs) ->
+Theorem from_iterable_backpressure : forall items on acts s outs,
+  s_run (s_init true (SIterable items) false on) acts = (s, outs) ->
   Forall (fun l => li_mode l = LEmit) (ss_loops s) /\ length (ss_loops s) <= 1 /\
   Forall (fun o => length o <= 1) outs.
 Proof.
-  intros items acts s outs H.
-  destruct (s_run_bp items acts _ _ _ (bp_inv_init true items) H) as (F1 & _ & _ & A).
+  intros items on acts s outs H.
+  destruct (s_run_bp items acts _ _ _ (bp_inv_init items on) H) as (F1 & _ & _ & _ & A).
   split; [exact A |]. split; [eapply one_loop; eauto | exact F1].
 Qed.
 
 (* while an item is outstanding at the consumer (a loop is alive), only the consumer's ack makes the source
    take the next item: start / stop / the passage of time deliver nothing *)
-Theorem from_iterable_next_only_after_ack : forall items acts s outs,
-  s_run (s_init true (SIterable items) false) acts = (s, outs) ->
+Theorem from_iterable_next_only_after_ack : forall items on acts s outs,
+  s_run (s_init true (SIterable items) false on) acts = (s, outs) ->
   ss_loops s <> [] -> forall a, a <> SAck -> snd (s_step s a) = [].
 Proof.
-  intros items acts s outs H Hne a Ha.
-  destruct (s_run_bp items acts _ _ _ (bp_inv_init true items) H) as (_ & Hb).
+  intros items on acts s outs H Hne a Ha.
+  destruct (s_run_bp items acts _ _ _ (bp_inv_init items on) H) as (_ & Hb).
   assert (Hf : ss_fixed s = true) by (apply s_run_cfg in H; destruct H as (A & _); exact A).
   destruct a; cbn [s_step].
   - destruct (ss_stopped s); [| reflexivity]. rewrite Hf.
@@ -557,6 +744,12 @@ Proof.
   - destruct (ss_stopped s); reflexivity.
   - congruence.
   - destruct (s_adv_bp items (Z.to_nat dt) s Hb) as (s2 & E2 & _). rewrite E2. reflexivity.
+  - (* a loop is alive: back-to-back calls only move the flag *)
+    unfold s_multi. rewrite Hf.
+    destruct (multi_flags true calls (ss_stopped s) (negb (no_loops s)) 0) as [st n] eqn:EF.
+    apply multi_flags_fixed in EF. destruct EF as (A & _).
+    unfold no_loops in A. destruct (ss_loops s) as [|l0 r0]; [congruence |].
+    rewrite A by reflexivity. reflexivity.
 Qed.
 
 (* ---------------------------------------------------------------------------------------------------- *)
@@ -564,23 +757,28 @@ Qed.
 (* ---------------------------------------------------------------------------------------------------- *)
 
 (* once the cursor has reached the end, every item has been delivered (exactly once, in order) *)
-Theorem from_iterable_complete : forall items sync acts s outs,
-  s_run (s_init true (SIterable items) sync) acts = (s, outs) ->
+Theorem from_iterable_complete : forall items sync on acts s outs,
+  s_run (s_init true (SIterable items) sync on) acts = (s, outs) ->
   ss_count s = length items -> map snd (concat outs) = items.
 Proof.
-  intros items sync acts s outs H Hc.
-  destruct (from_iterable_exact _ _ _ _ _ H) as (E & _). rewrite E, Hc. apply firstn_all.
+  intros items sync on acts s outs H Hc.
+  destruct (from_iterable_exact _ _ _ _ _ _ H) as (E & _). rewrite E, Hc. apply firstn_all.
 Qed.
 
-(* a synchronous sink: one burst of the loop emits all the remaining items and the source stops itself *)
-Lemma loop_go_iter_sync items s : iter_cfg items s -> ss_sync s = true ->
+(* a synchronous sink whose consumer never calls stop(): one burst of the loop emits all the remaining items and
+   the source stops itself *)
+Lemma hit_none s x : ss_stop_on s = None -> hit s x = false.
+Proof. intros H. unfold hit. rewrite H. reflexivity. Qed.
+
+Lemma loop_go_iter_sync items s : iter_cfg items s -> ss_sync s = true -> ss_stop_on s = None ->
   forall fuel now c cur, c <= length items -> length items - c < fuel ->
   loop_go fuel s now false c cur = (None, map (fun x => (now, x)) (skipn c items), true, length items).
 Proof.
-  intros (Hf & Hk) Hs. induction fuel as [|fuel IH]; intros now c cur Hc Hlt; [lia |].
+  intros (Hf & Hk) Hs Hon. induction fuel as [|fuel IH]; intros now c cur Hc Hlt; [lia |].
   cbn [loop_go]. rewrite Hk, Hf, Hs.
   destruct (nth_error items c) as [x|] eqn:En.
   - destruct (nth_error_firstn_S _ _ _ En) as (_ & EL).
+    rewrite (hit_none s x Hon).
     rewrite (IH now (S c) (S cur)) by lia.
     rewrite (nth_error_skipn_S _ _ _ En). reflexivity.
   - apply nth_error_None in En. assert (c = length items) by lia. subst c.
@@ -590,20 +788,20 @@ Qed.
 Lemma map_snd_stamp (now : Z) (l : list Z) : map snd (map (fun x => (now, x)) l) = l.
 Proof. induction l as [|x r IH]; cbn [map snd]; [reflexivity | rewrite IH; reflexivity]. Qed.
 
-Lemma start_iter_sync items s : iter_cfg items s -> ss_sync s = true ->
+Lemma start_iter_sync items s : iter_cfg items s -> ss_sync s = true -> ss_stop_on s = None ->
   ss_stopped s = true -> ss_loops s = [] -> ss_count s <= length items ->
   s_step s SStart =
     (upd s (ss_now s) true [] (length items), map (fun x => (ss_now s, x)) (skipn (ss_count s) items)).
 Proof.
-  intros Hc Hs Hst Hl Hle. pose proof Hc as (Hf & Hk). cbn [s_step]. rewrite Hst, Hf, Hl. cbn [andb negb].
-  rewrite (loop_go_iter_sync items s Hc Hs).
+  intros Hc Hs Hon Hst Hl Hle. pose proof Hc as (Hf & Hk). cbn [s_step]. rewrite Hst, Hf, Hl. cbn [andb negb].
+  rewrite (loop_go_iter_sync items s Hc Hs Hon).
   - reflexivity.
   - exact Hle.
   - unfold fuel_of. rewrite Hk. lia.
 Qed.
 
 Theorem from_iterable_sync_single_start : forall items s outs,
-  s_run (s_init true (SIterable items) true) [SStart] = (s, outs) ->
+  s_run (s_init true (SIterable items) true None) [SStart] = (s, outs) ->
   map snd (concat outs) = items /\ ss_count s = length items /\ ss_stopped s = true /\ ss_loops s = [].
 Proof.
   intros items s outs H. cbn [s_run] in H.
@@ -612,58 +810,75 @@ Proof.
   repeat split.
 Qed.
 
-(* stronger: on a synchronous sink ANY history that contains a start delivers all items exactly once *)
+(* stronger: on a synchronous sink whose consumer never calls stop(), ANY history that contains a start delivers all
+   items exactly once *)
 Definition idle (s : sst) : Prop := ss_stopped s = true /\ ss_loops s = [] /\ ss_count s = 0.
 
-Lemma idle_step items s a s' d : iter_cfg items s -> idle s -> a <> SStart -> s_step s a = (s', d) -> idle s'.
+(* from an idle source every step either leaves it idle (and was not a start) or has emitted everything *)
+Lemma idle_step items s a s' d : iter_cfg items s -> ss_sync s = true -> ss_stop_on s = None -> idle s ->
+  s_step s a = (s', d) -> (idle s' /\ a <> SStart) \/ ss_count s' = length items.
 Proof.
-  intros Hc (Hst & Hl & Hn) Ha H. destruct a; cbn [s_step] in H.
-  - congruence.
-  - rewrite Hst in H. inversion H; subst. repeat split; assumption.
-  - rewrite Hl in H. cbn [ack_first] in H. inversion H; subst. repeat split; assumption.
-  - revert s s' d Hc Hst Hl Hn H. induction (Z.to_nat dt) as [|n IH]; intros s s' d Hc Hst Hl Hn H; cbn [s_adv] in H.
+  intros Hc Hs Hon (Hst & Hl & Hn) H. pose proof Hc as (Hf & Hk). destruct a.
+  - right. rewrite (start_iter_sync items s Hc Hs Hon Hst Hl) in H by lia. inversion H; subst. reflexivity.
+  - left. split; [| discriminate]. cbn [s_step] in H. rewrite Hst in H. inversion H; subst.
+    repeat split; assumption.
+  - left. split; [| discriminate]. cbn [s_step] in H. rewrite Hl in H. cbn [ack_first] in H.
+    inversion H; subst. repeat split; assumption.
+  - left. split; [| discriminate]. cbn [s_step] in H.
+    revert s s' d Hc Hs Hon Hf Hk Hst Hl Hn H.
+    induction (Z.to_nat dt) as [|n IH]; intros s s' d Hc Hs Hon Hf Hk Hst Hl Hn H; cbn [s_adv] in H.
     + inversion H; subst. repeat split; assumption.
     + unfold s_tick in H. rewrite Hl in H. cbn [resume_due] in H.
       destruct (s_adv n (upd s (ss_now s + 1) (ss_stopped s) [] (ss_count s))) as [s2 d2] eqn:E2.
-      inversion H; subst. eapply IH; [| | | | exact E2].
-      * eapply iter_cfg_stable; [apply same_cfg_upd | exact Hc].
-      * exact Hst.
-      * reflexivity.
-      * exact Hn.
+      inversion H; subst. eapply IH; [| | | | | | | | exact E2]; try assumption; try reflexivity.
+  - cbn [s_step] in H. unfold s_multi in H. rewrite Hf, Hst in H. unfold no_loops in H. rewrite Hl in H.
+    cbn [negb] in H.
+    destruct (multi_flags true calls true false 0) as [st n] eqn:EF.
+    destruct (spawn_go n s (ss_now s) st (ss_count s)) as [[[ls dl] st'] c] eqn:ES.
+    pose proof (multi_flags_fixed _ _ _ _ _ _ EF) as (_ & Hle).
+    destruct n as [|[|n]]; [| | lia]; cbn [spawn_go] in ES.
+    + left. split; [| discriminate]. apply multi_flags_nospawn in EF; [| reflexivity]. subst st.
+      inversion ES; subst. inversion H; subst. repeat split; assumption.
+    + destruct st.
+      * left. split; [| discriminate]. destruct (fuel_of_S s) as (f & Ef).
+        rewrite Ef, loop_go_stopped, Hf in ES. inversion ES; subst. inversion H; subst.
+        repeat split; assumption.
+      * right. rewrite (loop_go_iter_sync items s Hc Hs Hon) in ES; [| lia | unfold fuel_of; rewrite Hk; lia].
+        rewrite Hf in ES. inversion ES; subst. inversion H; subst. reflexivity.
 Qed.
 
 Lemma idle_run_count items acts : forall s s' outs,
-  iter_cfg items s -> ss_sync s = true -> idle s -> In SStart acts -> s_run s acts = (s', outs) ->
-  ss_count s' = length items.
+  iter_cfg items s -> ss_sync s = true -> ss_stop_on s = None -> idle s -> In SStart acts ->
+  s_run s acts = (s', outs) -> ss_count s' = length items.
 Proof.
-  induction acts as [|a t IH]; intros s s' outs Hc Hs Hi Hin H; [destruct Hin |].
+  induction acts as [|a t IH]; intros s s' outs Hc Hs Hon Hi Hin H; [destruct Hin |].
   cbn [s_run] in H.
   destruct (s_step s a) as [s1 o] eqn:E1. destruct (s_run s1 t) as [s2 os] eqn:E2.
   inversion H; subst.
   assert (Hc1 : iter_cfg items s1) by (eapply iter_cfg_stable; [eapply s_step_cfg; eauto | exact Hc]).
-  assert (Hs1 : ss_sync s1 = true).
-  { destruct (s_step_cfg _ _ _ _ E1) as (_ & _ & A). congruence. }
-  destruct a.
-  - destruct Hi as (Hst & Hl & Hn).
-    rewrite (start_iter_sync items s Hc Hs Hst Hl) in E1 by lia. inversion E1; subst.
-    pose proof (iter_count_mono items t _ _ _ Hc1 (le_n _) E2) as M. cbn [upd ss_count] in M. lia.
-  - destruct Hin as [Hin | Hin]; [discriminate |].
-    eapply IH; [exact Hc1 | exact Hs1 | | exact Hin | exact E2].
-    eapply idle_step; [exact Hc | exact Hi | | exact E1]. discriminate.
-  - destruct Hin as [Hin | Hin]; [discriminate |].
-    eapply IH; [exact Hc1 | exact Hs1 | | exact Hin | exact E2].
-    eapply idle_step; [exact Hc | exact Hi | | exact E1]. discriminate.
-  - destruct Hin as [Hin | Hin]; [discriminate |].
-    eapply IH; [exact Hc1 | exact Hs1 | | exact Hin | exact E2].
-    eapply idle_step; [exact Hc | exact Hi | | exact E1]. discriminate.
+  destruct (s_step_cfg _ _ _ _ E1) as (_ & _ & A & B).
+  destruct (idle_step items _ _ _ _ Hc Hs Hon Hi E1) as [(Hi1 & Ha) | Hn].
+  - destruct Hin as [Hin | Hin]; [congruence |].
+    eapply IH; [exact Hc1 | congruence | congruence | exact Hi1 | exact Hin | exact E2].
+  - assert (Hle : ss_count s1 <= length items) by lia.
+    pose proof (iter_count_mono items t _ _ _ Hc1 Hle E2) as M. lia.
 Qed.
 
 Theorem from_iterable_complete_sync : forall items acts s outs,
-  In SStart acts -> s_run (s_init true (SIterable items) true) acts = (s, outs) ->
+  In SStart acts -> s_run (s_init true (SIterable items) true None) acts = (s, outs) ->
   map snd (concat outs) = items.
 Proof.
   intros items acts s outs Hin H. eapply from_iterable_complete; [exact H |].
-  eapply idle_run_count; [| | | exact Hin | exact H]; repeat split.
+  eapply idle_run_count; [| | | | exact Hin | exact H]; repeat split.
+Qed.
+
+(* with a consumer that calls stop() inside its callback the source is, as it should be, NOT run to completion *)
+Theorem from_iterable_complete_sync_needs_passive_consumer : exists items on acts s outs,
+  In SStart acts /\ s_run (s_init true (SIterable items) true on) acts = (s, outs) /\
+  map snd (concat outs) <> items.
+Proof.
+  exists [10; 11; 12]%Z, (Some 11%Z), [SStart; SAdv 3]. eexists; eexists.
+  split; [left; reflexivity |]. split; [vm_compute; reflexivity |]. vm_compute. discriminate.
 Qed.
 
 (* ---------------------------------------------------------------------------------------------------- *)
@@ -793,6 +1008,24 @@ Proof.
         cbn [map spaced_from nlb upd ss_fixed ss_kind ss_loops ss_now li_mode mode_ok].
         repeat split; assumption.
   - eapply s_adv_pinv; eauto.
+  - unfold s_multi in H. rewrite Hf in H.
+    destruct (multi_flags true calls (ss_stopped s) (negb (no_loops s)) 0) as [st n] eqn:EF.
+    apply multi_flags_fixed in EF. destruct EF as (A & Hn).
+    unfold pinv. unfold no_loops in A.
+    destruct (ss_loops s) as [|l [|l2 r]] eqn:EL; [| | contradiction]; cbn [negb] in A.
+    + destruct n as [|[|n]]; [| | lia]; cbn [spawn_go] in H.
+      * inversion H; subst. cbn [app map spaced_from nlb upd ss_fixed ss_kind ss_loops ss_now].
+        repeat split; assumption.
+      * unfold fuel_of in H. rewrite Hk in H. cbn [loop_go] in H. destruct st.
+        -- rewrite Hf in H. inversion H; subst.
+           cbn [app map spaced_from nlb upd ss_fixed ss_kind ss_loops ss_now].
+           repeat split; assumption.
+        -- rewrite Hk, Hf in H. destruct (ss_sync s); inversion H; subst;
+             cbn [app map fst spaced_from nlb upd ss_fixed ss_kind ss_loops ss_now li_mode mode_ok];
+             repeat split; try assumption; lia.
+    + rewrite A in H by reflexivity. cbn [spawn_go] in H. inversion H; subst.
+      cbn [app map spaced_from nlb upd ss_fixed ss_kind ss_loops ss_now].
+      repeat split; assumption.
 Qed.
 
 Lemma s_run_pinv poll acts : forall lb s s' outs, pinv poll lb s -> s_run s acts = (s', outs) ->
@@ -807,30 +1040,30 @@ Proof.
 Qed.
 
 (* true for every poll interval (for poll <= 0 it only says that time does not run backwards) *)
-Theorem periodic_spacing_gen : forall poll sync acts s outs,
-  s_run (s_init true (SPeriodic poll) sync) acts = (s, outs) -> spaced poll (map fst (concat outs)).
+Theorem periodic_spacing_gen : forall poll sync on acts s outs,
+  s_run (s_init true (SPeriodic poll) sync on) acts = (s, outs) -> spaced poll (map fst (concat outs)).
 Proof.
-  intros poll sync acts s outs H.
-  assert (Hp : pinv poll 0 (s_init true (SPeriodic poll) sync)).
+  intros poll sync on acts s outs H.
+  assert (Hp : pinv poll 0 (s_init true (SPeriodic poll) sync on)).
   { split; [reflexivity |]. split; [reflexivity |]. cbn [s_init ss_loops ss_now]. lia. }
   destruct (s_run_pinv poll acts _ _ _ _ Hp H) as (A & _). eapply spaced_from_spaced; exact A.
 Qed.
 
-Theorem periodic_spacing : forall poll sync acts s outs, (0 < poll)%Z ->
-  s_run (s_init true (SPeriodic poll) sync) acts = (s, outs) ->
+Theorem periodic_spacing : forall poll sync on acts s outs, (0 < poll)%Z ->
+  s_run (s_init true (SPeriodic poll) sync on) acts = (s, outs) ->
   spaced poll (map fst (concat outs)) /\
   (forall i t1 t2, nth_error (map fst (concat outs)) i = Some t1 ->
                    nth_error (map fst (concat outs)) (S i) = Some t2 -> (t1 + poll <= t2)%Z).
 Proof.
-  intros poll sync acts s outs _ H. pose proof (periodic_spacing_gen _ _ _ _ _ H) as Hs.
+  intros poll sync on acts s outs _ H. pose proof (periodic_spacing_gen _ _ _ _ _ _ H) as Hs.
   split; [exact Hs | apply spaced_nth; exact Hs].
 Qed.
 
 (* the code as found violates it: start, stop, start polls twice at the same instant *)
-Theorem periodic_spacing_asfound_refuted : exists poll sync acts s outs, (0 < poll)%Z /\
-  s_run (s_init false (SPeriodic poll) sync) acts = (s, outs) /\ ~ spaced poll (map fst (concat outs)).
+Theorem periodic_spacing_asfound_refuted : exists poll sync on acts s outs, (0 < poll)%Z /\
+  s_run (s_init false (SPeriodic poll) sync on) acts = (s, outs) /\ ~ spaced poll (map fst (concat outs)).
 Proof.
-  exists 5%Z, true, [SStart; SStop; SStart]. eexists; eexists.
+  exists 5%Z, true, None, [SStart; SStop; SStart]. eexists; eexists.
   split; [lia |]. split; [vm_compute; reflexivity |].
   cbn. intros (A & _). lia.
 Qed.
@@ -843,7 +1076,7 @@ Definition prog (items : list Z) (s : sst) : Prop :=
   (ss_stopped s = false /\ exists l, ss_loops s = [l] /\ li_mode l = LEmit) \/
   (ss_loops s = [] /\ ss_count s = length items).
 
-Lemma go_ctrl items s now c cur : iter_cfg items s -> ss_sync s = false ->
+Lemma go_ctrl items s now c cur : iter_cfg items s -> ss_sync s = false -> ss_stop_on s = None ->
   exists l st', loop_go (fuel_of s) s now false c cur
                 = (l, match nth_error items c with Some x => [(now, x)] | None => [] end, st',
                    match nth_error items c with Some _ => S c | None => c end) /\
@@ -852,20 +1085,21 @@ Lemma go_ctrl items s now c cur : iter_cfg items s -> ss_sync s = false ->
   | None => st' = true /\ l = None
   end.
 Proof.
-  intros (Hf & Hk) Hs. destruct (fuel_of_S s) as (f & Ef). rewrite Ef. cbn [loop_go]. rewrite Hk, Hf, Hs.
-  destruct (nth_error items c).
-  - eexists; eexists; split; [reflexivity |]. split; [reflexivity |]. eexists; split; reflexivity.
+  intros (Hf & Hk) Hs Hon. destruct (fuel_of_S s) as (f & Ef). rewrite Ef. cbn [loop_go]. rewrite Hk, Hf, Hs.
+  destruct (nth_error items c) as [x|].
+  - rewrite (hit_none s x Hon).
+    eexists; eexists; split; [reflexivity |]. split; [reflexivity |]. eexists; split; reflexivity.
   - eexists; eexists; split; [reflexivity |]. split; reflexivity.
 Qed.
 
-Lemma ack_prog items s s' d : iter_cfg items s -> ss_sync s = false -> ss_count s <= length items ->
-  prog items s -> s_step s SAck = (s', d) ->
+Lemma ack_prog items s s' d : iter_cfg items s -> ss_sync s = false -> ss_stop_on s = None ->
+  ss_count s <= length items -> prog items s -> s_step s SAck = (s', d) ->
   prog items s' /\ (ss_count s' = length items \/ ss_count s' = S (ss_count s)).
 Proof.
-  intros Hc Hs Hle Hp H. pose proof Hc as (Hf & Hk). cbn [s_step] in H.
+  intros Hc Hs Hon Hle Hp H. pose proof Hc as (Hf & Hk). cbn [s_step] in H.
   destruct Hp as [(Hst & l & Hl & Hm) | (Hl & Hn)].
   - rewrite Hl, Hst in H. cbn [ack_first] in H. rewrite Hm, Hk in H.
-    destruct (go_ctrl items s (ss_now s) (ss_count s) (li_cursor l) Hc Hs) as (l1 & st1 & E & Hcase).
+    destruct (go_ctrl items s (ss_now s) (ss_count s) (li_cursor l) Hc Hs Hon) as (l1 & st1 & E & Hcase).
     rewrite E, Hf in H. inversion H; subst. cbn [upd ss_count ss_loops ss_stopped].
     destruct (nth_error items (ss_count s)) eqn:En.
     + destruct Hcase as (A & l' & B & M). subst. split; [| right; reflexivity].
@@ -877,33 +1111,35 @@ Proof.
     split; [right; split; [reflexivity | exact Hn] | left; exact Hn].
 Qed.
 
-Lemma acks_prog items n : forall s s' outs, iter_cfg items s -> ss_sync s = false ->
+Lemma acks_prog items n : forall s s' outs, iter_cfg items s -> ss_sync s = false -> ss_stop_on s = None ->
   ss_count s <= length items -> prog items s -> s_run s (repeat SAck n) = (s', outs) ->
   ss_count s' = length items \/ ss_count s + n <= ss_count s'.
 Proof.
-  induction n as [|n IH]; intros s s' outs Hc Hs Hle Hp H; cbn [repeat s_run] in H.
+  induction n as [|n IH]; intros s s' outs Hc Hs Hon Hle Hp H; cbn [repeat s_run] in H.
   - inversion H; subst. right; lia.
   - destruct (s_step s SAck) as [s1 o] eqn:E1. destruct (s_run s1 (repeat SAck n)) as [s2 os] eqn:E2.
     inversion H; subst.
     assert (Hc1 : iter_cfg items s1) by (eapply iter_cfg_stable; [eapply s_step_cfg; eauto | exact Hc]).
     assert (Hs1 : ss_sync s1 = false).
-    { destruct (s_step_cfg _ _ _ _ E1) as (_ & _ & A). congruence. }
-    destruct (ack_prog _ _ _ _ Hc Hs Hle Hp E1) as (Hp1 & Hcnt).
+    { destruct (s_step_cfg _ _ _ _ E1) as (_ & _ & A & _). congruence. }
+    assert (Hon1 : ss_stop_on s1 = None).
+    { destruct (s_step_cfg _ _ _ _ E1) as (_ & _ & _ & A). congruence. }
+    destruct (ack_prog _ _ _ _ Hc Hs Hon Hle Hp E1) as (Hp1 & Hcnt).
     assert (Hle1 : ss_count s1 <= length items) by (destruct Hcnt; lia || (
       pose proof (iter_count_mono items [SAck] s s1 [o] Hc Hle) as M; cbn [s_run] in M; rewrite E1 in M;
       specialize (M eq_refl); lia)).
     pose proof (iter_count_mono items _ _ _ _ Hc1 Hle1 E2) as M2.
-    destruct (IH _ _ _ Hc1 Hs1 Hle1 Hp1 E2) as [A | A]; [left; exact A |].
+    destruct (IH _ _ _ Hc1 Hs1 Hon1 Hle1 Hp1 E2) as [A | A]; [left; exact A |].
     destruct Hcnt as [B | B]; [left; lia | right; lia].
 Qed.
 
-Lemma start_prog items s s1 o : iter_cfg items s -> ss_sync s = false ->
+Lemma start_prog items s s1 o : iter_cfg items s -> ss_sync s = false -> ss_stop_on s = None ->
   ss_stopped s = true -> ss_loops s = [] -> ss_count s <= length items ->
   s_step s SStart = (s1, o) -> prog items s1 /\ ss_count s1 <= length items.
 Proof.
-  intros Hc Hs Hst Hl Hle E1. pose proof Hc as (Hf & Hk).
+  intros Hc Hs Hon Hst Hl Hle E1. pose proof Hc as (Hf & Hk).
   cbn [s_step] in E1. rewrite Hst, Hf, Hl in E1. cbn [andb negb] in E1.
-  destruct (go_ctrl items s (ss_now s) (ss_count s) 0 Hc Hs) as (l1 & st1 & E & Hcase).
+  destruct (go_ctrl items s (ss_now s) (ss_count s) 0 Hc Hs Hon) as (l1 & st1 & E & Hcase).
   destruct (nth_error items (ss_count s)) eqn:En.
   - destruct Hcase as (A & l' & B & M). subst. rewrite E in E1. inversion E1; subst.
     cbn [upd ss_count ss_loops ss_stopped app].
@@ -915,19 +1151,285 @@ Proof.
 Qed.
 
 Theorem from_iterable_complete_controlled : forall items n s outs, length items <= n ->
-  s_run (s_init true (SIterable items) false) (SStart :: repeat SAck n) = (s, outs) ->
+  s_run (s_init true (SIterable items) false None) (SStart :: repeat SAck n) = (s, outs) ->
   map snd (concat outs) = items.
 Proof.
   intros items n s outs Hn H. eapply from_iterable_complete; [exact H |].
-  destruct (from_iterable_exact _ _ _ _ _ H) as (_ & Hub).
-  cbn [s_run] in H. destruct (s_step (s_init true (SIterable items) false) SStart) as [s1 o] eqn:E1.
+  destruct (from_iterable_exact _ _ _ _ _ _ H) as (_ & Hub).
+  cbn [s_run] in H. destruct (s_step (s_init true (SIterable items) false None) SStart) as [s1 o] eqn:E1.
   destruct (s_run s1 (repeat SAck n)) as [s2 os] eqn:E2. inversion H; subst.
-  assert (Hc0 : iter_cfg items (s_init true (SIterable items) false)) by (split; reflexivity).
+  assert (Hc0 : iter_cfg items (s_init true (SIterable items) false None)) by (split; reflexivity).
   assert (Hc1 : iter_cfg items s1) by (eapply iter_cfg_stable; [eapply s_step_cfg; eauto | exact Hc0]).
   assert (Hs1 : ss_sync s1 = false).
-  { destruct (s_step_cfg _ _ _ _ E1) as (_ & _ & A). rewrite A. reflexivity. }
-  destruct (start_prog items _ _ _ Hc0 eq_refl eq_refl eq_refl (Nat.le_0_l _) E1) as (Hp1 & Hle1).
-  destruct (acks_prog items n _ _ _ Hc1 Hs1 Hle1 Hp1 E2) as [A | A]; lia.
+  { destruct (s_step_cfg _ _ _ _ E1) as (_ & _ & A & _). rewrite A. reflexivity. }
+  assert (Hon1 : ss_stop_on s1 = None).
+  { destruct (s_step_cfg _ _ _ _ E1) as (_ & _ & _ & A). rewrite A. reflexivity. }
+  destruct (start_prog items _ _ _ Hc0 eq_refl eq_refl eq_refl eq_refl (Nat.le_0_l _) E1) as (Hp1 & Hle1).
+  destruct (acks_prog items n _ _ _ Hc1 Hs1 Hon1 Hle1 Hp1 E2) as [A | A]; lia.
+Qed.
+
+(* ---------------------------------------------------------------------------------------------------- *)
+(* 9. stop() called by the consumer from inside its callback (ss_stop_on = Some v)                       *)
+(*    after the element that triggers it nothing is delivered until a start; any state, both variants    *)
+(* ---------------------------------------------------------------------------------------------------- *)
+
+Definition hitv (on : option Z) (x : Z) : bool := match on with Some v => Z.eqb x v | None => false end.
+
+Lemma hit_hitv s x : hit s x = hitv (ss_stop_on s) x.
+Proof. reflexivity. Qed.
+
+(* within one burst of deliveries, the element that triggers the consumer's stop() is the last one *)
+Fixpoint quiet_after_hit (on : option Z) (dl : list (Z * Z)) : Prop :=
+  match dl with
+  | [] => True
+  | p :: r => (hitv on (snd p) = true -> r = []) /\ quiet_after_hit on r
+  end.
+
+Definition hit_in (on : option Z) (dl : list (Z * Z)) : bool := existsb (fun p => hitv on (snd p)) dl.
+
+(* a piece of execution that starts with the flag st, delivers dl and ends with the flag st' *)
+Definition Sil (on : option Z) (st : bool) (dl : list (Z * Z)) (st' : bool) : Prop :=
+  quiet_after_hit on dl /\ (hit_in on dl = true -> st' = true) /\ (st = true -> dl = [] /\ st' = true).
+
+Lemma Sil_refl on st : Sil on st [] st.
+Proof. split; [exact I |]. split; [discriminate | auto]. Qed.
+
+Lemma Sil_nil_true on st : Sil on st [] true.
+Proof. split; [exact I |]. split; [discriminate | auto]. Qed.
+
+Lemma quiet_after_hit_app on : forall d1 d2,
+  quiet_after_hit on d1 -> (hit_in on d1 = true -> d2 = []) -> quiet_after_hit on d2 ->
+  quiet_after_hit on (d1 ++ d2).
+Proof.
+  induction d1 as [|p r IH]; intros d2 H1 H12 H2; cbn [app]; [exact H2 |].
+  cbn [quiet_after_hit] in *. destruct H1 as (A & B). split.
+  - intros Hh. rewrite (A Hh). cbn [app]. apply H12. unfold hit_in. cbn [existsb]. rewrite Hh. reflexivity.
+  - apply IH; [exact B | | exact H2]. intros Hr. apply H12. unfold hit_in in *. cbn [existsb]. rewrite Hr.
+    apply orb_true_r.
+Qed.
+
+Lemma Sil_trans on st d1 st1 d2 st2 : Sil on st d1 st1 -> Sil on st1 d2 st2 -> Sil on st (d1 ++ d2) st2.
+Proof.
+  intros (Q1 & H1 & T1) (Q2 & H2 & T2). split; [| split].
+  - apply quiet_after_hit_app; [exact Q1 | | exact Q2]. intros Hh. apply T2. apply H1. exact Hh.
+  - unfold hit_in in *. rewrite existsb_app. intros Hh. apply orb_true_iff in Hh. destruct Hh as [Hh | Hh].
+    + apply T2. apply H1. exact Hh.
+    + apply H2. exact Hh.
+  - intros Hst. destruct (T1 Hst) as (A & B). destruct (T2 B) as (C & D). subst. split; reflexivity.
+Qed.
+
+Lemma Sil_force on st dl st' : Sil on st dl st' -> Sil on st dl true.
+Proof. intros (Q & H & T). split; [exact Q |]. split; [reflexivity |]. intros Hst. destruct (T Hst). auto. Qed.
+
+Lemma Sil_single on now x : Sil on false [(now, x)] (hitv on x).
+Proof.
+  split; [| split].
+  - cbn [quiet_after_hit]. auto.
+  - unfold hit_in. cbn [existsb snd]. rewrite orb_false_r. auto.
+  - discriminate.
+Qed.
+
+Lemma loop_go_sil s : forall fuel now st c cur l dl st' c',
+  loop_go fuel s now st c cur = (l, dl, st', c') -> Sil (ss_stop_on s) st dl st'.
+Proof.
+  induction fuel as [|fuel IH]; intros now st c cur l dl st' c' H; cbn [loop_go] in H.
+  - inversion H; subst. apply Sil_refl.
+  - destruct st; [inversion H; subst; apply Sil_refl |].
+    destruct (ss_kind s) as [poll | items].
+    + destruct (ss_sync s); inversion H; subst; rewrite hit_hitv; apply Sil_single.
+    + destruct (nth_error items (if ss_fixed s then c else cur)) as [x|].
+      * destruct (ss_sync s).
+        -- destruct (loop_go fuel s now (hit s x) (if ss_fixed s then S c else c) (S cur))
+             as [[[l1 dl1] st1] c1] eqn:E1.
+           inversion H; subst. apply IH in E1. rewrite hit_hitv in E1.
+           change ((now, x) :: dl1) with ([(now, x)] ++ dl1).
+           eapply Sil_trans; [apply Sil_single | exact E1].
+        -- inversion H; subst. rewrite hit_hitv. apply Sil_single.
+      * inversion H; subst. apply Sil_nil_true.
+Qed.
+
+Lemma resume_due_sil s now : forall loops st c loops' dl st' c',
+  resume_due s now loops st c = (loops', dl, st', c') -> Sil (ss_stop_on s) st dl st'.
+Proof.
+  induction loops as [|l rest IH]; intros st c loops' dl st' c' H; cbn [resume_due] in H.
+  - inversion H; subst. apply Sil_refl.
+  - destruct (li_mode l) as [u|].
+    + destruct (u <=? now)%Z.
+      * destruct (loop_go (fuel_of s) s now st c (li_cursor l)) as [[[l1 dl1] st1] c1] eqn:E1.
+        destruct (resume_due s now rest st1 c1) as [[[r2 dl2] st2] c2] eqn:E2.
+        inversion H; subst. eapply Sil_trans; [eapply loop_go_sil; eauto | eapply IH; eauto].
+      * destruct (resume_due s now rest st c) as [[[r2 dl2] st2] c2] eqn:E2.
+        inversion H; subst. eapply IH; eauto.
+    + destruct (resume_due s now rest st c) as [[[r2 dl2] st2] c2] eqn:E2.
+      inversion H; subst. eapply IH; eauto.
+Qed.
+
+Lemma ack_first_sil s : forall loops st c loops' dl st' c',
+  ack_first s loops st c = (loops', dl, st', c') -> Sil (ss_stop_on s) st dl st'.
+Proof.
+  induction loops as [|l rest IH]; intros st c loops' dl st' c' H; cbn [ack_first] in H.
+  - inversion H; subst. apply Sil_refl.
+  - destruct (li_mode l) as [u|].
+    + destruct (ack_first s rest st c) as [[[r2 dl2] st2] c2] eqn:E2.
+      inversion H; subst. eapply IH; eauto.
+    + destruct (ss_kind s).
+      * inversion H; subst. apply Sil_refl.
+      * destruct (loop_go (fuel_of s) s (ss_now s) st c (li_cursor l)) as [[[l1 dl1] st1] c1] eqn:E1.
+        apply loop_go_sil in E1. inversion H; subst.
+        destruct (ss_fixed s); [exact E1 |]. destruct l1; [exact E1 | eapply Sil_force; exact E1].
+Qed.
+
+Lemma spawn_go_sil s now : forall n st c ls dl st' c',
+  spawn_go n s now st c = (ls, dl, st', c') -> Sil (ss_stop_on s) st dl st'.
+Proof.
+  induction n as [|n IH]; intros st c ls dl st' c' H; cbn [spawn_go] in H.
+  - inversion H; subst. apply Sil_refl.
+  - destruct (loop_go (fuel_of s) s now st c 0) as [[[l1 dl1] st1] c1] eqn:E1.
+    destruct (spawn_go n s now _ c1) as [[[ls2 dl2] st2] c2] eqn:E2.
+    apply loop_go_sil in E1. apply IH in E2. inversion H; subst.
+    eapply Sil_trans; [| exact E2].
+    destruct (ss_fixed s); [exact E1 |].
+    destruct l1; [exact E1 |]. destruct (ss_kind s); [exact E1 | eapply Sil_force; exact E1].
+Qed.
+
+Lemma s_tick_sil s s' d : s_tick s = (s', d) -> Sil (ss_stop_on s) (ss_stopped s) d (ss_stopped s').
+Proof.
+  unfold s_tick.
+  destruct (resume_due s (ss_now s + 1) (ss_loops s) (ss_stopped s) (ss_count s)) as [[[lo dl] st] c] eqn:E.
+  intros H; inversion H; subst. cbn [upd ss_stopped]. eapply resume_due_sil; eauto.
+Qed.
+
+Lemma s_adv_sil n : forall s s' d, s_adv n s = (s', d) -> Sil (ss_stop_on s) (ss_stopped s) d (ss_stopped s').
+Proof.
+  induction n as [|n IH]; intros s s' d H; cbn [s_adv] in H.
+  - inversion H; subst. apply Sil_refl.
+  - destruct (s_tick s) as [s1 d1] eqn:E1. destruct (s_adv n s1) as [s2 d2] eqn:E2.
+    inversion H; subst. destruct (s_tick_cfg _ _ _ E1) as (_ & _ & _ & A).
+    apply IH in E2. rewrite A in E2. eapply Sil_trans; [eapply s_tick_sil; eauto | exact E2].
+Qed.
+
+(* one step: the trigger is the last delivery of the step and the source is stopped when the step ends *)
+Definition Sil2 (on : option Z) (dl : list (Z * Z)) (st' : bool) : Prop :=
+  quiet_after_hit on dl /\ (hit_in on dl = true -> st' = true).
+
+Lemma Sil_Sil2 on st dl st' : Sil on st dl st' -> Sil2 on dl st'.
+Proof. intros (Q & H & _). split; assumption. Qed.
+
+Lemma Sil2_nil on st : Sil2 on [] st.
+Proof. split; [exact I | discriminate]. Qed.
+
+Lemma s_step_sil s a s' d : s_step s a = (s', d) -> Sil2 (ss_stop_on s) d (ss_stopped s').
+Proof.
+  intros H. destruct a; cbn [s_step] in H.
+  - destruct (ss_stopped s).
+    + destruct (ss_fixed s && negb match ss_loops s with [] => true | _ :: _ => false end).
+      * inversion H; subst. apply Sil2_nil.
+      * destruct (loop_go (fuel_of s) s (ss_now s) false (ss_count s) 0) as [[[l dl] st] c] eqn:E.
+        apply loop_go_sil in E. inversion H; subst. cbn [upd ss_stopped].
+        eapply Sil_Sil2. destruct (ss_fixed s); [exact E |].
+        destruct l; [exact E |]. destruct (ss_kind s); [exact E | eapply Sil_force; exact E].
+    + inversion H; subst. apply Sil2_nil.
+  - destruct (ss_stopped s); inversion H; subst; apply Sil2_nil.
+  - destruct (ack_first s (ss_loops s) (ss_stopped s) (ss_count s)) as [[[lo dl] st] c] eqn:E.
+    inversion H; subst. cbn [upd ss_stopped]. eapply Sil_Sil2. eapply ack_first_sil; eauto.
+  - eapply Sil_Sil2. eapply s_adv_sil; eauto.
+  - unfold s_multi in H.
+    destruct (multi_flags (ss_fixed s) calls (ss_stopped s) (negb (no_loops s)) 0) as [st n].
+    destruct (spawn_go n s (ss_now s) st (ss_count s)) as [[[ls dl] st'] c] eqn:E.
+    inversion H; subst. cbn [upd ss_stopped]. eapply Sil_Sil2. eapply spawn_go_sil; eauto.
+Qed.
+
+Lemma quiet_after_hit_last v : forall d, quiet_after_hit (Some v) d -> In v (map snd d) ->
+  exists pre t, d = pre ++ [(t, v)] /\ ~ In v (map snd pre).
+Proof.
+  induction d as [|[t0 v0] r IH]; intros Q Hin; [destruct Hin |].
+  cbn [quiet_after_hit snd hitv] in Q. destruct Q as (A & B).
+  destruct (Z.eqb_spec v0 v) as [E | NE].
+  - subst v0. rewrite (A eq_refl). exists [], t0. split; [reflexivity | intros []].
+  - cbn [map snd In] in Hin. destruct Hin as [Hin | Hin]; [congruence |].
+    destruct (IH B Hin) as (pre & t & E & NI). exists ((t0, v0) :: pre), t. split.
+    + rewrite E. reflexivity.
+    + cbn [map snd In]. intros [X | X]; [congruence | exact (NI X)].
+Qed.
+
+Lemma hit_in_In v : forall d, In v (map snd d) -> hit_in (Some v) d = true.
+Proof.
+  induction d as [|[t0 v0] r IH]; intros Hin; [destruct Hin |].
+  unfold hit_in in *. cbn [existsb]. cbn [map snd In] in Hin. apply orb_true_iff. destruct Hin as [E | Hin].
+  - left. subst. cbn [snd hitv]. apply Z.eqb_refl.
+  - right. apply IH. exact Hin.
+Qed.
+
+(* ANY state (reachable or not, either variant, any number of live loops), any action: if the step hands the
+   consumer the element v on which it calls stop(), that delivery is the last one of the step, the source is
+   stopped when the step ends, and every continuation without a (possible) start delivers nothing *)
+Theorem stop_inside_callback_silences_any : forall s v a s1 d cont s2 outs,
+  ss_stop_on s = Some v -> s_step s a = (s1, d) -> In v (map snd d) ->
+  Forall (fun a => quiet a = true) cont -> s_run s1 cont = (s2, outs) ->
+  (exists pre t, d = pre ++ [(t, v)] /\ ~ In v (map snd pre)) /\
+  ss_stopped s1 = true /\ concat outs = [] /\ ss_stopped s2 = true.
+Proof.
+  intros s v a s1 d cont s2 outs Hon H Hin Hq Hr.
+  destruct (s_step_sil _ _ _ _ H) as (Q & Hh). rewrite Hon in Q, Hh.
+  split; [apply quiet_after_hit_last; assumption |].
+  assert (S1 : ss_stopped s1 = true) by (apply Hh; apply hit_in_In; exact Hin).
+  split; [exact S1 |]. eapply quiet_run_stopped; eauto.
+Qed.
+
+(* the same along every history from the initial state: from_periodic and from_iterable, synchronous and
+   controlled sink, repaired and as-found code *)
+Theorem stop_inside_callback_silences : forall fx k sync v hist a cont s0 outs0 s1 d s2 outs,
+  s_run (s_init fx k sync (Some v)) hist = (s0, outs0) ->
+  s_step s0 a = (s1, d) -> In v (map snd d) ->
+  Forall (fun a => quiet a = true) cont -> s_run s1 cont = (s2, outs) ->
+  (exists pre t, d = pre ++ [(t, v)] /\ ~ In v (map snd pre)) /\
+  ss_stopped s1 = true /\ concat outs = [] /\ ss_stopped s2 = true.
+Proof.
+  intros fx k sync v hist a cont s0 outs0 s1 d s2 outs H0. eapply stop_inside_callback_silences_any.
+  destruct (s_run_cfg _ _ _ _ H0) as (_ & _ & _ & A). rewrite A. reflexivity.
+Qed.
+
+(* ---------------------------------------------------------------------------------------------------- *)
+(* 10. Back-to-back calls: a single call in a callback is the plain action                               *)
+(* ---------------------------------------------------------------------------------------------------- *)
+
+Theorem multi_single_start : forall s, s_step s (SMulti [CStart]) = s_step s SStart.
+Proof.
+  intros [fx k sy now st loops cnt on]. cbn [s_step]. unfold s_multi, no_loops.
+  cbn [ss_fixed ss_stopped ss_loops ss_now ss_count multi_flags].
+  destruct st.
+  - destruct loops as [|l0 r0]; cbn [negb andb].
+    + rewrite andb_false_r. cbn [spawn_go ss_fixed ss_kind].
+      destruct (loop_go _ _ now false cnt 0) as [[[l dl] st1] c1].
+      rewrite !app_nil_r. reflexivity.
+    + rewrite andb_true_r. destruct fx.
+      * cbn [spawn_go]. rewrite app_nil_r. reflexivity.
+      * cbn [spawn_go ss_fixed ss_kind].
+        destruct (loop_go _ _ now false cnt 0) as [[[l dl] st1] c1].
+        rewrite !app_nil_r. reflexivity.
+  - cbn [spawn_go]. rewrite app_nil_r. reflexivity.
+Qed.
+
+Theorem multi_single_stop : forall s, s_step s (SMulti [CStop]) = s_step s SStop.
+Proof.
+  intros [fx k sy now st loops cnt on]. cbn [s_step]. unfold s_multi.
+  cbn [ss_fixed ss_stopped ss_loops ss_now ss_count multi_flags].
+  rewrite spawn_go_stopped. rewrite app_nil_r. destruct st; reflexivity.
+Qed.
+
+(* the repaired code: while a polling loop is alive, back-to-back calls only move the flag (to what the last
+   call says); nothing is delivered and no loop is added *)
+Theorem multi_with_live_loop : forall s calls, ss_fixed s = true -> ss_loops s <> [] ->
+  s_step s (SMulti calls) =
+    (upd s (ss_now s) (match calls with [] => ss_stopped s | _ :: _ => flag_of (last calls CStop) end)
+         (ss_loops s) (ss_count s), []).
+Proof.
+  intros s calls Hf Hl. cbn [s_step]. unfold s_multi. rewrite Hf.
+  destruct (multi_flags true calls (ss_stopped s) (negb (no_loops s)) 0) as [st n] eqn:EF.
+  pose proof (multi_flags_last _ _ _ _ _ _ _ EF) as E1.
+  apply multi_flags_fixed in EF. destruct EF as (A & _).
+  unfold no_loops in A. destruct (ss_loops s) as [|l0 r0] eqn:EL; [congruence |].
+  rewrite A by reflexivity. cbn [spawn_go]. rewrite app_nil_r, E1. reflexivity.
 Qed.
 
 (* ---------------------------------------------------------------------------------------------------- *)
@@ -937,33 +1439,88 @@ Qed.
 Example c18_nonvacuous :
   (* periodic (poll 3, synchronous sink): stop immediately followed by start while the loop sleeps; later a stop
      that the loop notices at its wake-up (it exits), and a fresh start: the polls happen at 0, 3, 6, 11 *)
-  s_run (s_init true (SPeriodic 3) true)
+  s_run (s_init true (SPeriodic 3) true None)
         [SStart; SAdv 1; SStop; SStart; SAdv 2; SAdv 3; SStop; SAdv 5; SStart]
   = ({| ss_fixed := true; ss_kind := SPeriodic 3; ss_sync := true; ss_now := 11%Z; ss_stopped := false;
-        ss_loops := [{| li_mode := LSleep 14; li_cursor := 0 |}]; ss_count := 4 |},
+        ss_loops := [{| li_mode := LSleep 14; li_cursor := 0 |}]; ss_count := 4; ss_stop_on := None |},
      [[(0, 1)]; []; []; []; [(3, 2)]; [(6, 3)]; []; []; [(11, 4)]])%Z
   (* the same history on the code as found: the restart spawns a second loop, polls at 0, 1, 3, 4, 6, 11 *)
-  /\ map fst (concat (snd (s_run (s_init false (SPeriodic 3) true)
+  /\ map fst (concat (snd (s_run (s_init false (SPeriodic 3) true None)
         [SStart; SAdv 1; SStop; SStart; SAdv 2; SAdv 3; SStop; SAdv 5; SStart]))) = [0; 1; 3; 4; 6; 11]%Z
   (* periodic with a controlled sink: the sleep starts at the ack *)
-  /\ concat (snd (s_run (s_init true (SPeriodic 3) false)
+  /\ concat (snd (s_run (s_init true (SPeriodic 3) false None)
         [SStart; SAdv 1; SStop; SStart; SAck; SAdv 2; SAdv 3; SAck; SStop; SAdv 5; SStart]))
      = [(0, 1); (4, 2); (11, 3)]%Z
   (* an iterable with a controlled sink, stopped and restarted in the middle: 10, 20, 30 exactly once *)
-  /\ s_run (s_init true (SIterable [10; 20; 30]%Z) false)
+  /\ s_run (s_init true (SIterable [10; 20; 30]%Z) false None)
         [SStart; SAck; SStop; SAck; SAdv 4; SStart; SAck; SAck; SStart]
   = ({| ss_fixed := true; ss_kind := SIterable [10; 20; 30]%Z; ss_sync := false; ss_now := 4%Z;
-        ss_stopped := true; ss_loops := []; ss_count := 3 |},
+        ss_stopped := true; ss_loops := []; ss_count := 3; ss_stop_on := None |},
      [[(0, 10)]; [(0, 20)]; []; []; []; [(4, 30)]; []; []; []])%Z
   (* the same on the code as found: the restart re-iterates from the beginning *)
-  /\ map snd (concat (snd (s_run (s_init false (SIterable [10; 20; 30]%Z) false)
+  /\ map snd (concat (snd (s_run (s_init false (SIterable [10; 20; 30]%Z) false None)
         [SStart; SAck; SStop; SAck; SAdv 4; SStart; SAck; SAck; SStart]))) = [10; 20; 10; 20; 30]%Z.
+Proof. vm_compute. repeat split. Qed.
+
+(* the consumer calls stop() from inside its callback: all four combinations source x sink (the same histories were
+   run on the real code by harness/srcfam.py, with the same result) *)
+Example stop_inside_callback_nonvacuous :
+  (* from_periodic (poll 3), synchronous sink, stop() at the element 2: the loop still sleeps, then exits; nothing
+     until the start at 10, which continues with 3 *)
+  snd (s_run (s_init true (SPeriodic 3) true (Some 2%Z))
+        [SStart; SAdv 3; SAdv 3; SAck; SStop; SMulti [CStart; CStop]; SAdv 4; SStart; SAdv 3])
+    = [[(0, 1)]; [(3, 2)]; []; []; []; []; []; [(10, 3)]; [(13, 4)]]%Z
+  (* from_periodic, controlled sink, stop() at the element 1 *)
+  /\ snd (s_run (s_init true (SPeriodic 3) false (Some 1%Z)) [SStart; SAck; SAdv 5; SStart; SAdv 1])
+    = [[(0, 1)]; []; []; [(5, 2)]; []]%Z
+  (* from_iterable, synchronous sink, stop() at 11: the burst ends there; the next start delivers the rest *)
+  /\ snd (s_run (s_init true (SIterable [10; 11; 12; 13]%Z) true (Some 11%Z))
+        [SStart; SAdv 2; SAck; SMulti [CStart; CStop]; SStart])
+    = [[(0, 10); (0, 11)]; []; []; []; [(2, 12); (2, 13)]]%Z
+  (* from_iterable, controlled sink, stop() at 11; restarted by back-to-back stop(); start() *)
+  /\ snd (s_run (s_init true (SIterable [10; 11; 12; 13]%Z) false (Some 11%Z))
+        [SStart; SAck; SAck; SAdv 2; SMulti [CStop; CStart]; SAck; SAck])
+    = [[(0, 10)]; [(0, 11)]; []; []; [(2, 12)]; [(2, 13)]; []]%Z
+  (* the hypotheses of stop_inside_callback_silences are met by the first history: the step SAdv 3 delivers 2 *)
+  /\ (exists s0 outs0 s1 d,
+        s_run (s_init true (SPeriodic 3) true (Some 2%Z)) [SStart] = (s0, outs0) /\
+        s_step s0 (SAdv 3) = (s1, d) /\ In 2%Z (map snd d) /\
+        Forall (fun a => quiet a = true) [SAdv 3; SAck; SStop; SMulti [CStart; CStop]; SAdv 4]).
+Proof.
+  repeat split; try (vm_compute; reflexivity).
+  eexists; eexists; eexists; eexists. split; [vm_compute; reflexivity |].
+  split; [vm_compute; reflexivity |]. split; [vm_compute; auto |].
+  repeat constructor.
+Qed.
+
+(* back-to-back calls: start(); stop() on an idle source does nothing; start(); stop(); start() starts ONE loop
+   (two on the code as found); with a live loop only the flag moves *)
+Example back_to_back_nonvacuous :
+  s_run (s_init true (SPeriodic 3) true None)
+        [SMulti [CStart; CStop]; SAdv 5; SMulti [CStart; CStop; CStart]; SAdv 3; SMulti [CStop; CStart];
+         SMulti [CStart; CStop]; SAdv 3; SAdv 3]
+  = ({| ss_fixed := true; ss_kind := SPeriodic 3; ss_sync := true; ss_now := 14%Z; ss_stopped := true;
+        ss_loops := []; ss_count := 2; ss_stop_on := None |},
+     [[]; []; [(5, 1)]; [(8, 2)]; []; []; []; []])%Z
+  /\ snd (s_run (s_init false (SPeriodic 3) true None)
+        [SMulti [CStart; CStop]; SAdv 5; SMulti [CStart; CStop; CStart]; SAdv 3; SMulti [CStop; CStart];
+         SMulti [CStart; CStop]; SAdv 3; SAdv 3])
+     = [[]; []; [(5, 1); (5, 2)]; [(8, 3); (8, 4)]; [(8, 5)]; []; []; []]%Z.
 Proof. vm_compute. repeat split. Qed.
 
 Print Assumptions one_loop.
 Print Assumptions one_loop_refuted.
+Print Assumptions one_loop_refuted_back_to_back.
 Print Assumptions no_new_cycle_after_stop.
 Print Assumptions no_new_cycle_after_stop_any.
+Print Assumptions no_new_cycle_after_stop_literal_refuted.
+Print Assumptions back_to_back_stop_last_is_silent.
+Print Assumptions stop_inside_callback_silences_any.
+Print Assumptions stop_inside_callback_silences.
+Print Assumptions multi_single_start.
+Print Assumptions multi_single_stop.
+Print Assumptions multi_with_live_loop.
+Print Assumptions from_iterable_complete_sync_needs_passive_consumer.
 Print Assumptions start_started_noop.
 Print Assumptions stop_stopped_noop.
 Print Assumptions from_iterable_exact.
@@ -979,3 +1536,5 @@ Print Assumptions periodic_spacing_gen.
 Print Assumptions periodic_spacing.
 Print Assumptions periodic_spacing_asfound_refuted.
 Print Assumptions c18_nonvacuous.
+Print Assumptions stop_inside_callback_nonvacuous.
+Print Assumptions back_to_back_nonvacuous.
